@@ -96,6 +96,12 @@ def evaluate(item, reg: Registry) -> str:
                 return "ok:" + ";".join(f"{k}={v.__name__}:{json.dumps(v.regex(), sort_keys=True)}" for k, v in C.base_groups.items())
             C = o.to_const()
             return "ok:" + C.__name__ + ":" + json.dumps(C.regex(), sort_keys=True)
+        if op == "toconst_chain":
+            # a constant of a constant: the class that comes back belongs to the object it was asked of
+            o = cls.parse(a[0], a[1])
+            c1 = o.to_const().parse(a[0], a[1])
+            C = c1.to_const()
+            return "ok:" + C.__name__ + ":" + json.dumps(C.regex(), sort_keys=True) + ":" + C.parse(a[0], a[1]).format(a[1])
         raise KeyError(op)
     except RecursionError:
         raise
